@@ -217,6 +217,85 @@ pub fn items(tier: Tier) -> Vec<Item> {
     }
     add("prop-literal", "EnumProperty", "control: str/int/bool props".into(), en("EnumProperty", "", "", &place("#[strum(props(a = \"s\", b = 1, c = true, d = -5))] X", 1)), true);
 
+    // ---- rare forms of the same rules (the plain form being rejected says nothing about these) ----
+    // R2': empty field lists and disabled data variants are still not unit variants
+    for d in ["VariantArray", "EnumTable"] {
+        for kind in ["X()", "X {}", "#[strum(disabled)] X(u8)", "#[strum(disabled)] X { a: u8 }"] {
+            for pos in positions(true) {
+                add("data-variant", d, format!("{} with `{}` at {}", d, kind, pos), en(d, "", "", &place(kind, pos)), false);
+            }
+        }
+    }
+    // R3': lifetime together with a where clause / after other parameters in the list
+    for d in ["EnumIter", "FromRepr", "EnumTable"] {
+        add("lifetime", d, format!("{} on enum with lifetime and where clause", d), format!("#[derive(strum::{})]\npub enum E<'a, T> where T: Default {{ A(&'a str, T), B }}\n", d), false);
+        add("lifetime", d, format!("{} on enum with lifetime, const parameter and bound lifetime", d), format!("#[derive(strum::{})]\npub enum E<'a, 'b: 'a, const N: usize> {{ A(&'a str, &'b [u8; N]), B }}\n", d), false);
+    }
+    // R4': third occurrence, occurrence through cfg_attr, occurrences separated by other attributes
+    for d in ["EnumString", "Display", "AsRefStr", "IntoStaticStr", "VariantNames", "EnumMessage"] {
+        for (lab, attr) in [
+            ("three lists, other key between", "#[strum(to_string = \"a\")] #[strum(serialize = \"z\")] #[strum(to_string = \"a\")]"),
+            ("through cfg_attr", "#[cfg_attr(all(), strum(to_string = \"a\"))] #[strum(to_string = \"b\")]"),
+            ("doc comment between", "#[strum(to_string = \"a\")]\n    /// doc\n    #[allow(dead_code)]\n    #[strum(to_string = \"a\")]"),
+            ("one list, other keys between", "#[strum(to_string = \"a\", serialize = \"y\", serialize = \"z\", to_string = \"b\")]"),
+        ] {
+            add("repeated-variant-attr", d, format!("{}: repeated to_string ({})", d, lab), en(d, "", "", &place(&format!("{} X", attr), 1)), false);
+        }
+        for (lab, attr) in [
+            ("through cfg_attr", "#[cfg_attr(all(), strum(serialize_all = \"snake_case\"))]\n#[strum(serialize_all = \"snake_case\")]\n"),
+            ("three lists", "#[strum(serialize_all = \"snake_case\")]\n#[strum(prefix = \"p\")]\n#[strum(serialize_all = \"kebab-case\")]\n"),
+        ] {
+            add("repeated-enum-attr", d, format!("{}: repeated enum-level serialize_all ({})", d, lab), en(d, attr, "", &place("X", 1)), false);
+        }
+    }
+    for d in ["EnumString", "EnumIter", "EnumCount", "FromRepr", "EnumIs"] {
+        add("repeated-variant-attr", d, format!("{}: `disabled` three times", d), en(d, "", "", &place("#[strum(disabled)] #[strum(disabled, disabled)] X", 1)), false);
+    }
+    // R5': two default variants far apart, first one not the first variant, one of them disabled-looking
+    add("two-defaults", "EnumString", "EnumString: two default variants, 6 variants apart, neither first".into(), en("EnumString", "", "", &["V0".into(), "#[strum(default)] A(String)".into(), "V2".into(), "V3".into(), "V4".into(), "V5".into(), "V6".into(), "#[strum(default)] B(String)".into(), "V8".into()]), false);
+    add("two-defaults", "EnumString", "EnumString: two default variants, second in a cfg_attr".into(), en("EnumString", "", "", &["#[strum(default)] A(String)".into(), "V1".into(), "#[cfg_attr(all(), strum(default))] B(String)".into()]), false);
+    // R6' / R7': arity with more fields, named two-field
+    for d in ["EnumString", "Display"] {
+        for kind in ["X(String, String, String)", "X { a: String, b: String, c: String }"] {
+            add("default-arity", d, format!("{}: default on `{}`", d, kind), en(d, "", "", &place(&format!("#[strum(default)] {}", kind), 1)), false);
+        }
+    }
+    // R8': placeholder with a spec, after escaped braces, at the very end, positional with two digits
+    for l in ["{{ {0:>4}", "{{}}{x}", "x{{{x}}}", "{10}", "ok {x:?}", "{x:03} "] {
+        add("unit-placeholder", "Display", format!("Display: to_string = {:?} on a unit variant (rare form)", l), en("Display", "", "", &place(&format!("#[strum(to_string = {:?})] X", l), 1)), false);
+    }
+    // R9': near misses of documented styles
+    for d in ["EnumString", "Display", "VariantNames"] {
+        for st in [" snake_case", "snake_case ", "SNAKE_CASE", "Kebab-Case", "train-Case", "Train-case", "screaming_snake_case", "MIXED_CASE", "Title_Case", "Camel_case", "pascalCase", "kebab_Case", "shouty-snake-case"] {
+            add("unknown-style", d, format!("{}: serialize_all = {:?} (near miss)", d, st), en(d, &format!("#[strum(serialize_all = {:?})]\n", st), "", &place("X", 1)), false);
+        }
+    }
+    // R10': only one of the pair on generic enums / next to other keys
+    for (g, v) in [("<T: Default>", "X(T)"), ("", "X")] {
+        for a in ["parse_err_ty = MyErr", "parse_err_fn = my_err"] {
+            add("parse-err-pair", "EnumString", format!("EnumString{}: only {} next to other keys", g, a), format!("{}{}", errdefs, en("EnumString", &format!("#[strum(ascii_case_insensitive, {}, serialize_all = \"snake_case\")]\n", a), g, &place(v, 1))), false);
+        }
+    }
+    // R10'': the pair check must not depend on what else the enum contains (default variant, disabled, phf, data, no variants)
+    for a in ["parse_err_ty = MyErr", "parse_err_fn = my_err"] {
+        for (lab, eattr, vs) in [
+            ("with a default variant last", "", vec!["V0".to_string(), "#[strum(default)] D(String)".to_string()]),
+            ("with a default variant first", "", vec!["#[strum(default)] D(String)".to_string(), "V1".to_string()]),
+            ("with a named default variant only", "", vec!["#[strum(default)] D { s: String }".to_string()]),
+            ("with only disabled variants", "", vec!["#[strum(disabled)] V0".to_string()]),
+            ("with no variants", "", vec![]),
+            ("with use_phf", "use_phf, ", vec!["V0".to_string(), "V1".to_string()]),
+            ("with case-insensitive data variants", "ascii_case_insensitive, ", vec!["V0(u8)".to_string(), "V1 { a: bool }".to_string()]),
+        ] {
+            add("parse-err-pair", "EnumString", format!("EnumString: only {} {}", a, lab), format!("{}{}", errdefs, en("EnumString", &format!("#[strum({}{})]\n", eattr, a), "", &vs)), false);
+        }
+    }
+    add("parse-err-pair", "EnumString", "control: both parse_err attributes with a default variant".into(), format!("{}{}", errdefs.replace("pub struct MyErr;", "#[derive(Debug)] pub struct MyErr;"), en("EnumString", "#[strum(parse_err_ty = MyErr, parse_err_fn = my_err)]\n", "", &["V0".to_string(), "#[strum(default)] D(String)".to_string()])), true);
+    // R11': unsupported literal not first / in the third group / negative float
+    for l in ["1.5", "'c'", "b\"bs\"", "-2.5"] {
+        add("prop-literal", "EnumProperty", format!("EnumProperty: props(a = 1, b = true, k = {}) last of three", l), en("EnumProperty", "", "", &place(&format!("#[strum(props(a = 1, b = true, k = {}))] X", l), 1)), false);
+        add("prop-literal", "EnumProperty", format!("EnumProperty: k = {} on the last variant of 9", l), en("EnumProperty", "", "", &(0..9).map(|i| if i == 8 { format!("#[strum(props(k = {}))] V8", l) } else { format!("#[strum(props(a = \"s\"))] V{}", i) }).collect::<Vec<_>>()), false);
+    }
     for (i, it) in out.iter_mut().enumerate() {
         it.idx = i;
     }
